@@ -13,6 +13,7 @@
 //! (d) skrifa `GlyphMetrics::advance_width/left_side_bearing` on synthesised fonts with HVAR.
 
 mod norm;
+mod norm2;
 
 use font_types::{F2Dot14, GlyphId};
 use rayon::prelude::*;
@@ -37,11 +38,16 @@ fn main() {
 /// (start, peak, end) per axis, in F2Dot14 bits
 pub type RegionSpec = [(i16, i16, i16); 2];
 const ONE: i16 = 0x4000;
-pub const REGIONS: [RegionSpec; 3] = [
+pub const REGIONS: [RegionSpec; 5] = [
     [(0, ONE, ONE), (0, 0, 0)],
     [(-ONE, -ONE, 0), (0, 0, 0)],
     [(0, 0, 0), (ONE / 4, ONE / 2, ONE)],
+    // a corner region on both axes, and a region with a non-dyadic intermediate tent on axis 0
+    [(0, ONE, ONE), (0, ONE, ONE)],
+    [(ONE / 8, 3 * (ONE / 8) + 1, ONE - 3), (-ONE, -ONE, 0)],
 ];
+/// number of regions
+pub const NR: usize = 5;
 
 fn wregion(r: &RegionSpec) -> VariationRegion {
     VariationRegion::new(
@@ -101,7 +107,7 @@ fn exact_delta(row: &BTreeMap<usize, i32>, loc: &[i16; 2]) -> Option<i32> {
 // ---------------------------------------------------------------------------
 
 /// one delta set: per region None (region not mentioned) or Some(delta)
-type DeltaSet = [Option<i32>; 3];
+type DeltaSet = [Option<i32>; NR];
 
 fn nonzero(ds: &DeltaSet) -> BTreeMap<usize, i32> {
     ds.iter().enumerate().filter_map(|(i, d)| d.filter(|d| *d != 0).map(|d| (i, d))).collect()
@@ -114,6 +120,17 @@ struct ReadStore {
 impl ReadStore {
     /// expand row (outer, inner): region id (index into REGIONS) -> delta, zeros dropped
     fn row(&self, outer: u16, inner: u16) -> Result<BTreeMap<usize, i32>, String> {
+        let by_spec = self.row_by_spec(outer, inner)?;
+        let mut out = BTreeMap::new();
+        for (spec, delta) in by_spec {
+            let id = REGIONS.iter().position(|r| r[..] == spec[..]).ok_or_else(|| format!("region list holds an unknown region {spec:?}"))?;
+            out.insert(id, delta);
+        }
+        Ok(out)
+    }
+
+    /// expand row (outer, inner): region coordinates -> delta, zeros dropped
+    fn row_by_spec(&self, outer: u16, inner: u16) -> Result<BTreeMap<Vec<(i16, i16, i16)>, i32>, String> {
         let ivs = read_fonts::tables::variations::ItemVariationStore::read(FontData::new(&self.bytes)).map_err(|e| format!("store does not parse: {e}"))?;
         let data = ivs
             .item_variation_data()
@@ -134,10 +151,9 @@ impl ReadStore {
             let ri = idx[col].get() as usize;
             let reg = regions.get(ri).map_err(|e| format!("region {ri}: {e}"))?;
             let spec: Vec<(i16, i16, i16)> = reg.region_axes().iter().map(|a| (a.start_coord().to_bits(), a.peak_coord().to_bits(), a.end_coord().to_bits())).collect();
-            let id = REGIONS.iter().position(|r| r[..] == spec[..]).ok_or_else(|| format!("region list holds an unknown region {spec:?}"))?;
             if *delta != 0 {
-                if out.insert(id, *delta).is_some() {
-                    return Err(format!("region {id} appears in two columns of sub-table {outer}"));
+                if out.insert(spec.clone(), *delta).is_some() {
+                    return Err(format!("region {spec:?} appears in two columns of sub-table {outer}"));
                 }
             }
         }
@@ -184,16 +200,23 @@ fn check_store(seq: &[DeltaSet], implicit: bool) -> Result<(u64, bool), (String,
     Ok((digest_of(&rs.bytes), any_nonzero))
 }
 
-fn delta_sets(alpha: &[Option<i32>]) -> Vec<DeltaSet> {
+/// every assignment of an alphabet value to each of the first `n` regions (the others absent)
+fn delta_sets_n(alpha: &[Option<i32>], n: usize) -> Vec<DeltaSet> {
+    let k = alpha.len();
     let mut out = vec![];
-    for a in alpha {
-        for b in alpha {
-            for c in alpha {
-                out.push([*a, *b, *c]);
-            }
+    for c in 0..k.pow(n as u32) {
+        let mut ds: DeltaSet = [None; NR];
+        let mut x = c;
+        for slot in ds.iter_mut().take(n) {
+            *slot = alpha[x % k];
+            x /= k;
         }
+        out.push(ds);
     }
     out
+}
+fn delta_sets(alpha: &[Option<i32>]) -> Vec<DeltaSet> {
+    delta_sets_n(alpha, 3)
 }
 
 fn ds_json(seq: &[DeltaSet]) -> Value {
@@ -204,8 +227,8 @@ fn ds_from_json(v: &Value) -> Vec<DeltaSet> {
         .map(|a| {
             a.iter()
                 .map(|ds| {
-                    let mut o = [None; 3];
-                    for i in 0..3 {
+                    let mut o = [None; NR];
+                    for i in 0..NR {
                         o[i] = ds[i].as_i64().map(|x| x as i32);
                     }
                     o
@@ -275,14 +298,14 @@ fn builder_sequences(run: &Run) {
         run.observe_many(&a, &nn);
         eprintln!("[c11] builder sequences of length {len}: {} stores at {:.1}s", total * 2, run.elapsed());
     }
-    run.sample(json!({"family":"a","example_sequence": ds_json(&[[Some(128), None, Some(-32769)], [None, Some(1), Some(0)]])}));
+    run.sample(json!({"family":"a","example_sequence": ds_json(&[[Some(128), None, Some(-32769), None, None], [None, Some(1), Some(0), None, None]])}));
 }
 
 /// row-count families: many distinct rows of cycling shapes
 fn family_row(i: u32) -> DeltaSet {
     let cyc = [None, Some(1), Some(200), Some(40000)][(i % 4) as usize];
     let big = if i % 7 == 0 { Some(-(i as i32) - 70000) } else { Some(i as i32 + 1) };
-    [big, cyc, if i % 3 == 0 { None } else { Some((i % 251) as i32 - 125) }]
+    [big, cyc, if i % 3 == 0 { None } else { Some((i % 251) as i32 - 125) }, None, None]
 }
 
 fn builder_families(run: &Run) {
@@ -387,6 +410,269 @@ fn compute_delta_family(run: &Run) {
     }
 }
 
+
+// ---------------------------------------------------------------------------
+// (a2) four and five regions; (a3) very wide rows and more rows than an inner index can address
+// ---------------------------------------------------------------------------
+
+fn builder_more_regions(run: &Run) {
+    let a4: Vec<Option<i32>> = vec![None, Some(1), Some(128), Some(-32769)];
+    let a3: Vec<Option<i32>> = vec![None, Some(1), Some(-129)];
+    let a3b: Vec<Option<i32>> = vec![None, Some(1), Some(128)];
+    // (regions used, sequence length, alphabet)
+    let plan: Vec<(usize, usize, &Vec<Option<i32>>)> = if run.tier == Tier::Quick {
+        vec![(5, 1, &a4), (5, 2, &a3), (4, 2, &a4)]
+    } else {
+        vec![(5, 1, &a4), (5, 2, &a4), (4, 3, &a3b)]
+    };
+    run.bound("a2.more_regions", json!(plan.iter().map(|(r, l, a)| json!({"regions": r, "sequence_length": l, "per_region_delta_alphabet": a})).collect::<Vec<_>>()));
+    for (nr, len, alpha) in plan {
+        let sets = delta_sets_n(alpha, nr);
+        let n = sets.len();
+        let total = (n as u64).pow(len as u32);
+        let all: Mutex<HashSet<u64>> = Mutex::new(HashSet::new());
+        let non: Mutex<HashSet<u64>> = Mutex::new(HashSet::new());
+        (0..n).into_par_iter().for_each(|first| {
+            let (mut la, mut ln) = (HashSet::new(), HashSet::new());
+            let rest = (n as u64).pow(len as u32 - 1);
+            let mut seq: Vec<DeltaSet> = vec![sets[first]; len];
+            for c in 0..rest {
+                let mut x = c;
+                for i in (1..len).rev() {
+                    seq[i] = sets[(x % n as u64) as usize];
+                    x /= n as u64;
+                }
+                for implicit in [false, true] {
+                    match guard(|| check_store(&seq, implicit)) {
+                        Ok(Ok((d, nz))) => {
+                            la.insert(d);
+                            if nz {
+                                ln.insert(d);
+                            }
+                        }
+                        Ok(Err((id, details))) => run.violation(&id, &details, json!({"kind":"builder","implicit":implicit,"seq":ds_json(&seq)})),
+                        Err(p) => run.violation(&format!("VariationStoreBuilder panic: {} in {}", p.kind(), p.site()), &format!("{} for {:?}", p.message, seq), json!({"kind":"builder","implicit":implicit,"seq":ds_json(&seq)})),
+                    }
+                }
+            }
+            all.lock().unwrap().extend(la);
+            non.lock().unwrap().extend(ln);
+        });
+        run.evals(total * 2);
+        run.trans(total * 2 * (len as u64 + 2));
+        run.count(&format!("a2.stores_{nr}regions_len{len}"), total * 2);
+        let (a, nn) = (all.into_inner().unwrap(), non.into_inner().unwrap());
+        run.observe_many(&a, &nn);
+    }
+}
+
+/// region k of the wide family: axis 0 tent (0, peak_k, 1)
+fn wide_region(k: usize) -> Vec<(i16, i16, i16)> {
+    vec![(0, 40 * (k as i16 + 1), ONE), (0, 0, 0)]
+}
+
+/// rows that mention `width` distinct regions each; returns Err((identity, details)) like check_store.
+/// `Ok(None)` = the builder or the compiler refused the input (an error, not wrong rows).
+fn check_wide(width: usize, rows: usize, implicit: bool) -> Result<Option<u64>, (String, String)> {
+    let mode = if implicit { "implicit indices" } else { "de-duplicating" };
+    let mut b = if implicit { VariationStoreBuilder::new_with_implicit_indices(2) } else { VariationStoreBuilder::new(2) };
+    let delta_of = |r: usize, k: usize| -> i32 { [1, -1, 127, -129, 300, 40000][(r + k) % 6] * (1 + (k % 3) as i32) };
+    let mut ids = vec![];
+    for r in 0..rows {
+        let v: Vec<(VariationRegion, i32)> = (0..width)
+            .map(|k| {
+                let spec = wide_region(k);
+                (
+                    VariationRegion::new(spec.iter().map(|(s, p, e)| RegionAxisCoordinates::new(F2Dot14::from_bits(*s), F2Dot14::from_bits(*p), F2Dot14::from_bits(*e))).collect()),
+                    delta_of(r, k),
+                )
+            })
+            .collect();
+        ids.push(b.add_deltas(v));
+    }
+    let (store, remap) = b.build();
+    let bytes = match dump_table(&store) {
+        Ok(b) => b,
+        Err(_) => return Ok(None),
+    };
+    let rs = ReadStore { bytes };
+    for r in 0..rows {
+        let expect: BTreeMap<Vec<(i16, i16, i16)>, i32> = (0..width).map(|k| (wide_region(k), delta_of(r, k))).collect();
+        let Some(vi) = remap.get(ids[r]) else {
+            return Err((format!("VariationStoreBuilder ({mode}): temporary id has no final index [wide rows]"), format!("row {r} of {rows}, {width} regions")));
+        };
+        match rs.row_by_spec(vi.delta_set_outer_index, vi.delta_set_inner_index) {
+            Ok(got) if got == expect => {}
+            Ok(got) => {
+                return Err((
+                    format!("VariationStoreBuilder ({mode}): row addressed by the returned index differs from the input delta set [wide rows]"),
+                    format!("{width} regions, row {r}: {} columns differ", got.iter().filter(|(k, v)| expect.get(*k) != Some(v)).count() + expect.len().saturating_sub(got.len())),
+                ))
+            }
+            Err(e) => return Err((format!("VariationStoreBuilder ({mode}): returned index does not address a row [wide rows]"), format!("{width} regions, row {r}: {e}"))),
+        }
+    }
+    Ok(Some(digest_of(&rs.bytes)))
+}
+
+fn builder_limits(run: &Run) {
+    // wide rows: around 255/256 columns and beyond
+    let widths = [254usize, 255, 256, 257, 300];
+    run.bound("a3.limits", json!({"wide_rows": {"regions_per_row": widths, "rows": 3}, "implicit_mode_row_counts_past_u16": [65536, 70000], "expectation": "an error from the builder/compiler or correct rows; never a returned index that addresses other data"}));
+    let jobs: Vec<(usize, bool)> = widths.iter().flat_map(|w| [(*w, false), (*w, true)]).collect();
+    jobs.par_iter().for_each(|(w, implicit)| {
+        run.eval();
+        let case = json!({"kind":"builder_wide","width":w,"implicit":implicit});
+        match guard(|| check_wide(*w, 3, *implicit)) {
+            Ok(Ok(Some(d))) => run.observe(d, true),
+            Ok(Ok(None)) => run.count("a3.wide_rows_refused_with_error", 1),
+            Ok(Err((id, details))) => run.violation(&id, &details, case),
+            Err(p) => {
+                // a panic is a refusal only if it is the documented precondition; report it otherwise
+                run.violation(&format!("VariationStoreBuilder panic: {} in {} [wide rows]", p.kind(), p.site()), &format!("{w} regions per row: {} at {}:{}", p.message, p.file, p.line), case)
+            }
+        }
+    });
+    run.count("a3.wide_row_stores", jobs.len() as u64);
+    // more rows than a 16-bit inner index can address, implicit-index mode (one sub-table only)
+    for count in [65536u32, 70000] {
+        run.eval();
+        let seq: Vec<DeltaSet> = (0..count).map(family_row).collect();
+        let case = json!({"kind":"builder_family","count":count,"implicit":true});
+        match guard(|| check_store(&seq, true)) {
+            Ok(Ok((d, _))) => run.observe(d, true),
+            Ok(Err((id, details))) => {
+                if id.contains("does not compile") {
+                    run.count("a3.too_many_rows_refused_with_error", 1);
+                } else {
+                    run.violation(&format!("{id} [more than 65535 rows]"), &format!("{count} rows in implicit-index mode: {details}"), case)
+                }
+            }
+            // the implicit-index mode can address at most 65535 rows (one sub-table, inner index = item
+            // number); `build` has no error channel and refuses with an assertion. A loud refusal is not
+            // a wrong row, so it is counted, not reported.
+            Err(p) if p.message.contains("split_off_back") || p.message.contains("at most u16::MAX") => {
+                run.count("a3.too_many_rows_refused_by_assertion", 1);
+                run.extra("a3.too_many_rows_refusal", json!(format!("{} at {}", p.message, p.site())));
+            }
+            Err(p) => run.violation(&format!("VariationStoreBuilder panic: {} in {} [more than 65535 rows]", p.kind(), p.site()), &format!("{count} rows: {} at {}:{}", p.message, p.file, p.line), case),
+        }
+    }
+}
+
+// ---------------------------------------------------------------------------
+// (b2) compute_delta at arbitrary (non-dyadic) locations with an error bound
+// ---------------------------------------------------------------------------
+
+fn axis_points(axis: usize) -> Vec<i16> {
+    let mut v: Vec<i32> = vec![-(ONE as i32), 0, ONE as i32, ONE as i32 / 3, -(ONE as i32) / 3, 2 * ONE as i32 / 3, 5461, 12345];
+    for r in REGIONS.iter() {
+        let (s, p, e) = r[axis];
+        for c in [s, p, e] {
+            v.extend([c as i32 - 1, c as i32, c as i32 + 1]);
+        }
+    }
+    let mut out: Vec<i16> = v.into_iter().filter(|c| *c >= -(ONE as i32) && *c <= ONE as i32).map(|c| c as i16).collect();
+    out.sort();
+    out.dedup();
+    out
+}
+
+/// |compute_delta - sum| <= sum_i |delta_i| * 2 axes * 2^-16 + 1/2.
+/// Justification: the implementation rounds each region scalar to 16.16 after every axis (mul_div), i.e.
+/// at most 2^-17 per axis and certainly less than 2^-16; the delta is multiplied by that scalar and the sum
+/// is rounded once (1/2). Everything is compared in 2^40 fixed point (truncation error < 2^-37 in total).
+fn check_bounded(row: &BTreeMap<usize, i32>, loc: &[i16; 2], got: i32) -> Result<(), String> {
+    const SH: u32 = 40;
+    let mut sum: i128 = 0; // exact sum * 2^40 (each term floored)
+    let mut abs: i128 = 0;
+    for (ri, delta) in row {
+        let (n, d) = tent(&REGIONS[*ri], loc);
+        sum += ((*delta as i128) * n << SH).div_euclid(d);
+        abs += (*delta as i128).abs();
+    }
+    // bound * 2^40 = abs * 2 * 2^24 + 2^39, plus 8 units for the flooring above
+    let bound = abs * 2 * (1i128 << (SH - 16)) + (1i128 << (SH - 1)) + 8;
+    let diff = ((got as i128) << SH) - sum;
+    if diff.abs() > bound {
+        return Err(format!("compute_delta = {got}, exact sum = {:.6}, allowed error {:.6}", sum as f64 / (1u64 << SH) as f64, bound as f64 / (1u64 << SH) as f64));
+    }
+    Ok(())
+}
+
+fn compute_delta_bounded(run: &Run) {
+    let alpha: Vec<Option<i32>> = vec![Some(0), Some(1), Some(-129), Some(32767), Some(0x3FFF_FFFF)];
+    let rows = delta_sets_n(&alpha, NR);
+    let (p0, p1) = (axis_points(0), axis_points(1));
+    run.bound(
+        "b2.compute_delta_bounded",
+        json!({"rows": rows.len(), "regions": NR, "per_region_delta_alphabet": alpha, "axis0_locations_f2dot14_bits": p0, "axis1_locations_f2dot14_bits": p1,
+               "error_bound": "sum |delta_i| * 2 * 2^-16 + 1/2", "note": "locations include one F2Dot14 ulp around every region start/peak/end"}),
+    );
+    let mut b = VariationStoreBuilder::new(2);
+    let ids: Vec<u32> = rows.iter().map(|ds| b.add_deltas(ds.iter().enumerate().filter_map(|(i, d)| d.map(|d| (wregion(&REGIONS[i]), d))).collect::<Vec<_>>())).collect();
+    let (store, remap) = b.build();
+    let bytes = match dump_table(&store) {
+        Ok(b) => b,
+        Err(e) => {
+            run.machinery_error(&format!("bounded compute_delta store does not compile: {e:?}"));
+            return;
+        }
+    };
+    let skipped = AtomicU64::new(0);
+    let exact_hits = AtomicU64::new(0);
+    let all: Mutex<HashSet<u64>> = Mutex::new(HashSet::new());
+    let non: Mutex<HashSet<u64>> = Mutex::new(HashSet::new());
+    (0..rows.len()).into_par_iter().for_each(|ri| {
+        let ivs = read_fonts::tables::variations::ItemVariationStore::read(FontData::new(&bytes)).expect("store parses");
+        let vi = remap.get(ids[ri]).expect("id resolves");
+        let ix = read_fonts::tables::variations::DeltaSetIndex { outer: vi.delta_set_outer_index, inner: vi.delta_set_inner_index };
+        let row = nonzero(&rows[ri]);
+        let (mut la, mut ln) = (HashSet::new(), HashSet::new());
+        for c0 in &p0 {
+            for c1 in &p1 {
+                let loc = [*c0, *c1];
+                let Some(exact) = exact_delta(&row, &loc) else {
+                    skipped.fetch_add(1, Ordering::Relaxed);
+                    continue;
+                };
+                let case = json!({"kind":"compute_delta_bounded","row":ds_json(&[rows[ri]]),"loc":loc});
+                match guard(|| ivs.compute_delta(ix, &[F2Dot14::from_bits(*c0), F2Dot14::from_bits(*c1)])) {
+                    Ok(Ok(got)) => {
+                        if got == exact {
+                            exact_hits.fetch_add(1, Ordering::Relaxed);
+                        }
+                        if let Err(why) = check_bounded(&row, &loc, got) {
+                            run.violation(
+                                "ItemVariationStore::compute_delta outside the error bound of the exact tent sum",
+                                &format!("row {:?} at F2Dot14 bits ({}, {}): {why}", rows[ri], c0, c1),
+                                case,
+                            );
+                        }
+                        let d = digest_of(&("b2", ri, loc, got));
+                        la.insert(d);
+                        if got != 0 {
+                            ln.insert(d);
+                        }
+                    }
+                    Ok(Err(e)) => run.violation("ItemVariationStore::compute_delta fails on a built store", &format!("{e}"), case),
+                    Err(p) => run.violation(&format!("ItemVariationStore::compute_delta panic: {}", p.kind()), &p.message, case),
+                }
+            }
+        }
+        all.lock().unwrap().extend(la);
+        non.lock().unwrap().extend(ln);
+    });
+    let n = (rows.len() * p0.len() * p1.len()) as u64;
+    run.evals(n);
+    run.trans(n);
+    run.count("b2.evaluations", n);
+    run.count("b2.equal_to_exactly_rounded_sum", exact_hits.load(Ordering::Relaxed));
+    run.count("b2.skipped_exact_result_outside_i32", skipped.load(Ordering::Relaxed));
+    let (a, nn) = (all.into_inner().unwrap(), non.into_inner().unwrap());
+    run.observe_many(&a, &nn);
+}
+
 // ---------------------------------------------------------------------------
 // body / replay
 // ---------------------------------------------------------------------------
@@ -401,12 +687,18 @@ fn body(run: &Run, replay: Option<&Value>) {
     }
     builder_sequences(run);
     builder_families(run);
+    builder_more_regions(run);
+    builder_limits(run);
     eprintln!("[c11] (a) done at {:.1}s", run.elapsed());
     compute_delta_family(run);
+    compute_delta_bounded(run);
     eprintln!("[c11] (b) done at {:.1}s", run.elapsed());
     norm::normalisation(run);
     eprintln!("[c11] (c) done at {:.1}s", run.elapsed());
     norm::glyph_metrics(run);
+    norm2::gvar_metrics(run);
+    norm2::multi_axis(run);
+    norm2::mvar_metrics(run);
     eprintln!("[c11] (d) done at {:.1}s", run.elapsed());
 }
 
@@ -431,6 +723,31 @@ fn replay_case(run: &Run, case: &Value) {
                 Err(p) => run.violation(&format!("VariationStoreBuilder panic: {} in {}", p.kind(), p.site()), &p.message, case.clone()),
             }
         }
+        "builder_wide" => match guard(|| check_wide(case["width"].as_u64().unwrap_or(0) as usize, 3, case["implicit"].as_bool().unwrap_or(false))) {
+            Ok(Ok(r)) => println!("replay: {:?}", r.map(|_| "correct rows")),
+            Ok(Err((id, d))) => run.violation(&id, &d, case.clone()),
+            Err(p) => run.violation(&format!("VariationStoreBuilder panic: {} in {} [wide rows]", p.kind(), p.site()), &p.message, case.clone()),
+        },
+        "compute_delta_bounded" => {
+            let rows = ds_from_json(&case["row"]);
+            let loc = [case["loc"][0].as_i64().unwrap_or(0) as i16, case["loc"][1].as_i64().unwrap_or(0) as i16];
+            let mut b = VariationStoreBuilder::new(2);
+            let id = b.add_deltas(rows[0].iter().enumerate().filter_map(|(i, d)| d.map(|d| (wregion(&REGIONS[i]), d))).collect::<Vec<_>>());
+            let (store, remap) = b.build();
+            let bytes = dump_table(&store).expect("compiles");
+            let ivs = read_fonts::tables::variations::ItemVariationStore::read(FontData::new(&bytes)).expect("parses");
+            let vi = remap.get(id).expect("resolves");
+            let got = ivs.compute_delta(
+                read_fonts::tables::variations::DeltaSetIndex { outer: vi.delta_set_outer_index, inner: vi.delta_set_inner_index },
+                &[F2Dot14::from_bits(loc[0]), F2Dot14::from_bits(loc[1])],
+            );
+            println!("replay: compute_delta {:?}", got);
+            if let Ok(g) = got {
+                if let Err(why) = check_bounded(&nonzero(&rows[0]), &loc, g) {
+                    run.violation("ItemVariationStore::compute_delta outside the error bound of the exact tent sum", &why, case.clone());
+                }
+            }
+        }
         "compute_delta" => {
             let rows = ds_from_json(&case["row"]);
             let loc = [case["loc"][0].as_i64().unwrap_or(0) as i16, case["loc"][1].as_i64().unwrap_or(0) as i16];
@@ -451,6 +768,7 @@ fn replay_case(run: &Run, case: &Value) {
                 run.violation("ItemVariationStore::compute_delta differs from the exact tent sum", "replayed", case.clone());
             }
         }
+        "metrics_gvar" | "norm_two_axes" | "metrics_mvar" => norm2::replay(run, case),
         k if k.starts_with("norm") || k.starts_with("metrics") || k.starts_with("segment") || k.starts_with("location") => norm::replay(run, case),
         k => println!("replay: unknown kind {k}"),
     }
